@@ -21,6 +21,7 @@ type shrinker struct {
 	tmp        string
 	deadline   time.Time
 	tried      int
+	maxTries   int
 	n          int
 }
 
@@ -46,7 +47,7 @@ func (s *shrinker) try(run *work.Run, slot int) (bool, *work.Violation) {
 	go func() { done <- cmd.Wait() }()
 	select {
 	case <-done:
-	case <-time.After(60 * time.Second):
+	case <-time.After(15 * time.Second):
 		cmd.Process.Kill()
 		return false, nil
 	}
@@ -69,30 +70,46 @@ func (s *shrinker) try(run *work.Run, slot int) (bool, *work.Violation) {
 	return true, &v
 }
 
-// firstOK evaluates candidates in parallel and returns the index of the first
-// (in list order) that reproduces, or -1.
-func (s *shrinker) firstOK(cands []*work.Run) int {
+// firstOKn evaluates candidates in parallel (8 at a time, built lazily) and
+// returns the first (in order) that reproduces, or nil. n is the number of
+// candidates, gen builds the i-th (nil = skip).
+func (s *shrinker) firstOKn(n int, gen func(i int) *work.Run) *work.Run {
 	const par = 8
-	for base := 0; base < len(cands); base += par {
-		if time.Now().After(s.deadline) {
-			return -1
+	for base := 0; base < n; base += par {
+		if time.Now().After(s.deadline) || s.tried >= s.maxTries {
+			return nil
 		}
-		end := min(base+par, len(cands))
+		end := min(base+par, n)
+		cands := make([]*work.Run, end-base)
 		ok := make([]bool, end-base)
 		var wg sync.WaitGroup
 		for i := base; i < end; i++ {
+			cands[i-base] = gen(i)
+			if cands[i-base] == nil {
+				continue
+			}
 			wg.Add(1)
 			go func(i int) {
 				defer wg.Done()
-				ok[i-base], _ = s.try(cands[i], i-base)
+				ok[i-base], _ = s.try(cands[i-base], i-base)
 			}(i)
 		}
 		wg.Wait()
 		s.tried += end - base
 		for i, o := range ok {
 			if o {
-				return base + i
+				return cands[i]
 			}
+		}
+	}
+	return nil
+}
+
+func (s *shrinker) firstOK(cands []*work.Run) int {
+	r := s.firstOKn(len(cands), func(i int) *work.Run { return cands[i] })
+	for i, c := range cands {
+		if c == r && r != nil {
+			return i
 		}
 	}
 	return -1
@@ -159,71 +176,61 @@ func (s *shrinker) shrink(run *work.Run) *work.Run {
 			for chunk := len(opsOf(cur, task)); chunk >= 1; chunk /= 2 {
 				for {
 					ops := opsOf(cur, task)
-					var cands []*work.Run
-					var spans [][2]int
-					for end := len(ops); end-chunk >= 0; end -= chunk {
-						if task >= 0 && len(ops)-chunk < 0 {
-							break
-						}
-						cands = append(cands, dropOps(cur, task, end-chunk, end))
-						spans = append(spans, [2]int{end - chunk, end})
-					}
-					if len(cands) == 0 {
+					n := len(ops) / chunk
+					if n == 0 {
 						break
 					}
-					k := s.firstOK(cands)
-					if k < 0 {
+					base := cur
+					got := s.firstOKn(n, func(i int) *work.Run {
+						end := len(ops) - i*chunk
+						return dropOps(base, task, end-chunk, end)
+					})
+					if got == nil {
 						break
 					}
-					cur = cands[k]
+					cur = got
 					improved = true
 				}
 			}
 		}
-		// 3. drop preemptions (not task-exit decisions)
+		// 3. drop preemptions (forced decisions stay): all at once, then chunks
 		if len(cur.Switches) > 0 {
-			c := cloneRun(cur)
-			var keep []sched.Switch
-			for _, sw := range c.Switches {
-				if sw.Exit {
-					keep = append(keep, sw)
+			dropSw := func(base *work.Run, from, to int) *work.Run {
+				c := cloneRun(base)
+				var ks []sched.Switch
+				removed := 0
+				for i, sw := range c.Switches {
+					if i >= from && i < to && !sw.Forced() {
+						removed++
+						continue
+					}
+					ks = append(ks, sw)
 				}
+				if removed == 0 {
+					return nil
+				}
+				c.Switches = ks
+				return c
 			}
-			if len(keep) < len(c.Switches) {
-				c.Switches = keep
-				if s.firstOK([]*work.Run{c}) == 0 {
-					cur = c
-					improved = true
-				}
+			if c := dropSw(cur, 0, len(cur.Switches)); c != nil && s.firstOK([]*work.Run{c}) == 0 {
+				cur = c
+				improved = true
 			}
 			for chunk := len(cur.Switches) / 2; chunk >= 1; chunk /= 2 {
 				for {
-					var cands []*work.Run
-					for end := len(cur.Switches); end-chunk >= 0; end -= chunk {
-						c := cloneRun(cur)
-						var ks []sched.Switch
-						removed := 0
-						for i, sw := range c.Switches {
-							if i >= end-chunk && i < end && !sw.Exit {
-								removed++
-								continue
-							}
-							ks = append(ks, sw)
-						}
-						if removed == 0 {
-							continue
-						}
-						c.Switches = ks
-						cands = append(cands, c)
-					}
-					if len(cands) == 0 {
+					base := cur
+					n := len(base.Switches) / chunk
+					if n == 0 {
 						break
 					}
-					k := s.firstOK(cands)
-					if k < 0 {
+					got := s.firstOKn(n, func(i int) *work.Run {
+						end := len(base.Switches) - i*chunk
+						return dropSw(base, end-chunk, end)
+					})
+					if got == nil {
 						break
 					}
-					cur = cands[k]
+					cur = got
 					improved = true
 				}
 			}
@@ -304,7 +311,7 @@ func shrinkAndConfirm(b binSet, build, rawPath, finalPath string, budget time.Du
 		return nil, err
 	}
 	defer os.RemoveAll(tmp)
-	s := &shrinker{bin: b.bin(build), sites: b.sites(build), sig: rf.Violation.Sig, tmp: tmp, deadline: time.Now().Add(budget)}
+	s := &shrinker{bin: b.bin(build), sites: b.sites(build), sig: rf.Violation.Sig, tmp: tmp, deadline: time.Now().Add(budget), maxTries: 1200}
 	rf.Run.UseSwitches = len(rf.Run.Switches) > 0
 	rf.Run.Entropy.Stream = nil
 	ok, _ := s.try(rf.Run, 0)
